@@ -110,3 +110,13 @@ Theorem C07_no_mutual_wait :
   Corr.RolloutSM.br_waiting rsp u wl (Some (Loop.br_view bsp bst rid pol anno)) = false.
 Proof. exact Proofs.Loop.no_mutual_wait. Qed.
 Print Assumptions C07_no_mutual_wait.
+
+(* stronger, and what the BatchRelease controller needs: its watch ignores updates of its own status, so a status change is no
+   wake-up.  A reconcile that returns neither error nor requeue has written the workload (whose event comes back) or leaves
+   a state in which there is nothing left to do. *)
+Theorem C07_batchrelease_without_requeue_is_settled :
+  forall sp st w r,
+  BRExec.reconcile sp st w = Some r -> BRExec.r_finalizer r = true -> BRExec.r_requeue r = BRExec.RqNone -> BRExec.r_err r = false ->
+  Corr.BRExec.wl_eqb w (BRExec.r_workload r) = false \/ Corr.BRExec.waits_br sp (BRExec.r_status r) (BRExec.r_workload r) = true.
+Proof. exact Proofs.BRExec.br_no_self_wake_means_settled. Qed.
+Print Assumptions C07_batchrelease_without_requeue_is_settled.
